@@ -74,10 +74,13 @@ def build(cfg):
     c = cfg["cls"]
     if c == "SingleMemory":
         return cs.SingleMemoryStorageSchedule()
-    if c == "SingleDiskCopy":
-        return cs.SingleDiskStorageSchedule(move_data=False)
-    if c == "SingleDiskMove":
-        return cs.SingleDiskStorageSchedule(move_data=True)
+    if c in ("SingleDiskCopy", "SingleDiskMove"):
+        # "flag": bool-like values that are not the bool singletons
+        import numpy as np
+        truth = c == "SingleDiskMove"
+        flag = {None: truth, "np": np.bool_(truth), "int": int(truth)}[
+            cfg.get("flag")]
+        return cs.SingleDiskStorageSchedule(move_data=flag)
     if c == "None":
         return cs.NoneCheckpointSchedule()
     if c == "TwoLevel":
